@@ -10,7 +10,7 @@ from ..core import enc, dec
 from .. import dbio
 from . import src_common as S
 
-FORMS = ["path", "gz", "string", "list", "generator", "dataiterator", "featuredb"]
+FORMS = ["path", "gz", "string", "list", "generator", "iter", "map", "dataiterator", "featuredb"]
 LOOK = ["featuretype", "chrom", "attribute_keys", "feature_count"]
 
 
@@ -30,6 +30,10 @@ def make_input(form, path, text, cl, store):
         return objs
     if form == "generator":
         return (o for o in objs)
+    if form == "iter":
+        return iter(objs)                 # one-shot, but not a generator object
+    if form == "map":
+        return map(lambda o: o, objs)
     if form == "dataiterator":
         with S.quiet():
             return gffutils.DataIterator(path, checklines=cl)
@@ -44,7 +48,7 @@ def run_case(args):
     from gffutils import inspect as gi
     fails = []
     text = S.render(c["kinds"])
-    if any(x in ("FASTA", "H", "J") for x in c["kinds"]):
+    if any(x in ("FASTA", "H", "J", "D3") for x in c["kinds"]):
         return fails          # FASTA sections are C14's subject; here all forms must see the same features
     base = os.path.join(scratch, "c13_%d_%d" % (os.getpid(), k))
     path = base + ".gff"
@@ -66,9 +70,12 @@ def run_case(args):
             # (a) plain iteration
             with S.quiet():
                 it = gffutils.DataIterator(make_input(form, path, text, cl, store), checklines=cl, **kw)
-                got = [S.fid(f) for f in it]
+                feats_it = list(it)
+                got = [S.fid(f) for f in feats_it]
             if got != want:
                 fails.append(("iterate_%s" % form, got))
+            elif [str(f) for f in feats_it] != [S.feature_line(n) for n in want]:
+                fails.append(("iterate_content_%s" % form, [str(f) for f in feats_it]))
             # (b) transforms: drop a subset, and a recording tag; each feature exactly once, in order
             for dropset in ([], [1, 3], [2]):
                 calls = []
@@ -125,15 +132,15 @@ def run_case(args):
 
 def run(ctx):
     thorough = ctx.tier == "thorough"
-    mi = 6 if thorough else 5
-    ctx.rule = ("Every sequence of <= %d lines over {feature, directives, comment, blank} (MC_Source, FASTA-free subset) x checklines 0..%d, supplied in all seven forms "
-                "(path, gzip path, from_string text, list of Features, one-shot generator, DataIterator, FeatureDB): iterated feature sequence, create_db content, "
+    mi = 5 if thorough else 4
+    ctx.rule = ("Every sequence of <= %d lines over {feature, directives, comment, blank} (MC_Source, FASTA-free subset) x checklines 0..%d, supplied in all nine forms "
+                "(path, gzip path, from_string text, list of Features, one-shot generator, iter(list), map(...), DataIterator, FeatureDB): iterated feature sequence, create_db content, "
                 "transform (none / drops {1,3} / drops {2}, each recording its calls), inspect() for 4 look_for subsets x limit None/2. Non-trivial: a one-shot form "
                 "with checklines below the number of features, or a transform that drops something; distinct by (lines, checklines).") % (mi, mi + 1)
     cases = S.get_cases(ctx, mi, "item sequences x checklines")
     if cases is None:
         return
-    cases = [c for c in cases if not any(x in ("FASTA", "H", "J") for x in c["kinds"])]
+    cases = [c for c in cases if not any(x in ("FASTA", "H", "J", "D3") for x in c["kinds"])]
     ctx.exhaustive = True
     limit = 12000 if thorough else 1200
     if len(cases) > limit:
